@@ -347,7 +347,9 @@ pub(crate) struct Dispatcher<T: Transport, E: UtpEnvironment> {
 
 impl<T: Transport, E: UtpEnvironment> Dispatcher<T, E> {
     pub(crate) async fn run_forever(mut self) -> crate::Result<()> {
-        let mut read_buf = [0u8; 16384];
+        // Large enough for any datagram: link_mtu can be anything up to u16::MAX, and a datagram that
+        // doesn't fit would be silently truncated into a valid-looking shorter one.
+        let mut read_buf = vec![0u8; u16::MAX as usize];
 
         loop {
             if let Err(e) = self.run_once(&mut read_buf).await {
